@@ -28,6 +28,18 @@ CHECKS = {
  "C13": dict(cat="exploration", tech="deterministic simulation: self-reading multi-op transactions judged by a strict sequential model, with deviant-model attribution of the recorded known finding",
    text="Seeded write transactions that read/pop structures they already modified, judged by the strict sequential model; runs the strict model rejects are excused only when the single deviant switch (evaluate on the start state, apply at commit) explains every result and observation.",
    note="Known finding K2: nutsdb buffers writes until Commit (no read-your-writes) by design."),
+ "C09": dict(cat="fault_enumeration", tech="deterministic simulation with crash injection: crash and torn-write images at file-mutation points of every kind of history (incl. inside Open and Merge); Open must return nil on each",
+   text="Every kind of history the other checks generate (all index modes, all structures, no-op-at-commit operations, reads of never-written buckets, exact-fill segments, merges, reopens, dirty restarts) with crash/torn images at a seeded sample (thorough: all) of the file-mutation points, every RWMode and StartFileLoadingMode; Open on every image and every in-run reopen must succeed without panic.",
+   note="Known finding K3: in HintBPTSparseIdxMode index/meta files are not updated atomically, so crash images are taken in the RAM index modes only; sparse runs check Open after clean closes and dirty restarts between transactions."),
+ "C12": dict(cat="fault_enumeration", tech="deterministic simulation with I/O-error injection: one seeded write/short-write/sync/open/truncate fault inside a chosen commit; refinement of all observations against the model without the failed transaction",
+   text="Histories in which transactions end by function error, Rollback, oversized entry at any position or one injected I/O fault at a seeded I/O point of their commit (incl. the rotation it triggers); read-only transactions calling mutating APIs; calls on finished transactions; the full observation after every step and after reopen must equal the model in which those transactions never happened (sync error: all-or-nothing).",
+   note="RAM index modes. Whether the database accepts further writes after an injected error is not part of the property (probe only)."),
+ "C15": dict(cat="exploration", tech="deterministic simulation: seeded histories with Merge at seeded points (also failing through injected I/O errors), refinement of full observations against a model in which Merge is a no-op",
+   text="KV (TTL, deletes, failed transactions; both RAM modes), sets and sorted sets (ZAdd/ZRem) with 64-256 B segments; Merge at seeded points, twice in a row, failing via injected open/truncate/remove/read/write errors; later writes; reopen; every observation equals the model.",
+   note="Known findings K4 (positional sorted-set removals under a partial Merge) and K5 (lists under Merge) are avoided narrowly and re-demonstrated from their witnesses."),
+ "C16": dict(cat="fault_enumeration", tech="deterministic simulation with crash injection inside Merge: crash and torn images at Merge's file-mutation points, recovery must equal the pre-Merge model state",
+   text="C15's histories with crash and torn-write images at the file-mutation points inside Merge (quick: half, thorough: all); each image is mounted, opened and fully observed and must equal the state before Merge.",
+   note="Known finding K4a (positional sorted-set removals) and K5 (lists) avoided as in C15."),
 }
 
 ORDER = sorted(CHECKS)
